@@ -637,6 +637,7 @@ def prepare_signature(g, thr, cls):
     isc = lambda pol: (pol, ("mcall", "Pomerol::BlockNumber::isCorrect", Lkey))
     n_with = n_without = 0
     sig = None
+    partial_valid = []
     for path in plist:
         pf = {(x[0], inl(x[1])) if x[0] in ("true", "false") else x for x in P_.path_facts(g, ctx, path)}
         if not P_.feasible(pf):
@@ -659,7 +660,50 @@ def prepare_signature(g, thr, cls):
             elif n["k"] == "un" and n["op"] in ("++",) and g.nodes[n["sub"]]["k"] == "ref" and g.nodes[n["sub"]]["d"] in counters:
                 incs.append((pos_, g.nodes[n["sub"]]["d"]))
         effects = bool(news or pushes or maps or bim)
-        if isc("true") in pf:
+        # which values of the image block L = mapsTo(R) are compatible with the conditions of this path?  -1 is "no image"
+        # (ERROR_BLOCK_NUMBER, the only negative value mapsTo returns), 0, 1, 5 stand for the existing blocks (0 matters: it is a
+        # block like any other).  isCorrect() is number >= 0; comparisons with literals / ERROR_BLOCK_NUMBER are evaluated.
+        D = {-1, 0, 1, 5}
+        unknownL = None
+        for x in pf:
+            if x in (isc("true"), isc("false")):
+                D = {v for v in D if (v >= 0) == (x[0] == "true")}
+                continue
+            if x[0] in ("<", "<=", "==", "!=") and len(x) == 3:
+                a_, b_ = inl(x[1]), inl(x[2])
+
+                def val_(k_):
+                    k_ = deconv(k_)
+                    while k_[0] == "cast" and len(k_) == 3:
+                        k_ = deconv(k_[2])
+                    if k_ == Lkey:
+                        return "L"
+                    if k_[0] == "lit" and isinstance(k_[1], int):
+                        return k_[1]
+                    if k_[0] == "un" and k_[1] == "-" and k_[2][0] == "lit":
+                        return -k_[2][1]
+                    if k_ == ("global", "Pomerol::ERROR_BLOCK_NUMBER"):
+                        return -1
+                    return None
+                va_, vb_ = val_(a_), val_(b_)
+                if "L" in (va_, vb_):
+                    other = vb_ if va_ == "L" else va_
+                    if other is None or other == "L":
+                        unknownL = x
+                        continue
+                    cmp_ = {"<": lambda p_, q_: p_ < q_, "<=": lambda p_, q_: p_ <= q_, "==": lambda p_, q_: p_ == q_, "!=": lambda p_, q_: p_ != q_}[x[0]]
+                    D = {v for v in D if (cmp_(v, other) if va_ == "L" else cmp_(other, v))}
+                    continue
+            if key_contains(("x",) + tuple(y for y in x[1:] if isinstance(y, tuple)), lambda y: inl(y) == Lkey if isinstance(y, tuple) and y[0] in ("var", "mcall") else False) and x[0] in ("true", "false"):
+                unknownL = x
+        if unknownL is not None and effects:
+            raise AnalysisBroken("%s: part creation depends on a condition on the image block that is not understood (%s)" % (g.qn, str(fact_str(unknownL))[:80]))
+        only_valid = bool(D) and all(v >= 0 for v in D)
+        only_missing = bool(D) and all(v < 0 for v in D)
+        if only_valid and D != {0, 1, 5} and effects:
+            # a part is created, but only for some of the existing image blocks: find out whether the others get one elsewhere
+            partial_valid.append((set(D), path))
+        if only_valid:
             n_with += 1
             if not effects:
                 problems.append("part creation is filtered by a condition other than LeftIndex.isCorrect() (%s): blocks with an image get no part" % (
@@ -714,13 +758,17 @@ def prepare_signature(g, thr, cls):
                 if len([1 for p_, dd in incs if dd == d_]) != 1 and any(deconv(m_[3])[:2] == ("var", d_) for m_ in maps):
                     problems.append("the running part counter is not incremented exactly once per new part")
             sig = ("ok",)
-        elif isc("false") in pf:
+        elif only_missing:
             n_without += 1
             if effects:
                 problems.append("a part / map entry is created although mapsTo returned no image block (LeftIndex.isCorrect() is false on that path)")
         else:
             if effects:
                 problems.append("the part is created although mapsTo returned no image block (LeftIndex.isCorrect() not tested)")
+            elif any(v >= 0 for v in D):
+                problems.append("no part is created on a path that existing image blocks take (image block number %s): the test that guards the creation is not `the image exists` (isCorrect(), number >= 0) -- "
+                                "e.g. block 0 is an ordinary block for partitions that do not include N" % ", ".join(str(v) for v in sorted(D) if v >= 0))
+                n_with += 1
     if n_with == 0:
         # the image block is not mapsTo(RightIndex): if it is a conditional one of whose arms is the right block itself, the code
         # assumes that the operator keeps the block, which holds for some partitions only (positive evidence); anything else is
